@@ -758,7 +758,8 @@ static void doc_format(JanetString doc, int32_t width) {
 static void find_matches(JanetByteView prefix) {
     JanetTable *env = gbl_complete_env;
     gbl_match_count = 0;
-    while (NULL != env) {
+    /* Like lookups, give up after JANET_MAX_PROTO_DEPTH prototypes (the chain may be cyclic) */
+    for (int depth = JANET_MAX_PROTO_DEPTH; NULL != env && depth; --depth) {
         JanetKV *kvend = env->data + env->capacity;
         for (JanetKV *kv = env->data; kv < kvend; kv++) {
             if (!janet_checktype(kv->key, JANET_SYMBOL)) continue;
